@@ -266,6 +266,8 @@ def gen_prim(rng, kind, mode, c, m=None, size=None):
         m = lattice_rot(rng) if lat else random_rot(rng)
     if mode == "small":
         sz = lambda: 10 ** rng.uniform(-2.0, math.log10(0.06)) * 1.0001
+    elif mode == "aniso":
+        sz = lambda: 10 ** rng.uniform(-2.0, 2.0) * 0.9999      # every size independently over the whole declared range
     elif lat:
         sz = lambda: rng.choice(LAT_SIZES)
     elif size:
@@ -406,6 +408,7 @@ def in_domain(A, B):
 
 
 TINY_NZ = True      # switched off by the checks while the known-finding entry FD8 is not merged (see c10.py)
+MULTI_SIZE = {"ellipsoid", "box", "cylinder", "rectangle"}      # kinds with several independent sizes
 PLANAR = {"plane", "triangle", "rectangle", "disk", "circle"}
 AXIAL = {"circle", "disk", "cylinder", "plane"}
 BASE_MIX = ["random", "random", "far", "lattice", "lattice", "lattice", "touch", "touch", "same", "rotlat", "shallow", "small"]
@@ -420,6 +423,8 @@ def stream_mix(ka, kb):
         mix += ["axis"] * 4
     if ka == "line_segment" or kb == "line_segment" or "triangle" in (ka, kb):
         mix += ["small"]
+    if {ka, kb} & MULTI_SIZE:
+        mix += ["aniso"] * (4 if "ellipsoid" in (ka, kb) else 2)
     return mix
 
 
@@ -528,6 +533,8 @@ def gen_pair(rng, fn, stream=None):
        rotlat   a lattice placement moved by one random rigid motion (nearly degenerate in float)
        small    sizes log-uniform in [0.01, 0.06] (short segments, tiny triangles ...), general position, centre
                 offsets of the order of the sizes
+       aniso    one primitive with several sizes (ellipsoid, box, cylinder, rectangle) gets them independently log-uniform
+                over [0.01, 100] (needles, plates); the other primitive near the surface / a short axis / far / inside
        coplanar B is planar (plane, triangle, rectangle, disk, circle): A is built INSIDE B's plane from
                 in-plane points around B (segments / lines cutting corners, passing by, ending inside ...)
        axis     B has an axis (circle, disk, cylinder, plane normal): the point / line / segment lies exactly
@@ -579,6 +586,36 @@ def gen_pair(rng, fn, stream=None):
             dirv = unit([rng.gauss(0, 1) for _ in range(3)])
             off = s0 * 10 ** rng.uniform(-1, 0.7)
             B = gen_prim(rng, kb, "small", [o[i] + off * dirv[i] for i in range(3)])
+        elif stream == "aniso":
+            # strongly anisotropic shapes: the sizes of one primitive are drawn independently, log-uniform over [0.01, 100]
+            # (ratios up to 1e4: needles, plates); the other primitive sits near a short axis / near the surface / far away
+            o = [rng.uniform(-2, 2) for _ in range(3)]
+            which = "B" if kb in MULTI_SIZE else "A"
+            big = gen_prim(rng, kb if which == "B" else ka, "aniso", o)
+            place = rng.choice(["surface", "surface", "short-axis", "short-axis", "far", "inside"])
+            q = sample_point_on(rng, big, special=False)          # a point of the shape
+            cb = centre(big)
+            out = unit([q[i] - cb[i] for i in range(3)]) if math.dist(q, cb) > 1e-9 else unit([rng.gauss(0, 1) for _ in range(3)])
+            sizes = feature_sizes(big)
+            if place == "surface":
+                gap = 10 ** rng.uniform(-3, 0) * min(sizes + [1.0])
+                ref = [q[i] + gap * out[i] for i in range(3)]
+            elif place == "short-axis":
+                M = [[big["pose"][i][j] for j in range(3)] for i in range(3)] if "pose" in big else None
+                if M is not None:
+                    ssz = (big.get("radii") or big.get("size") or [big.get("r", 1.0), big.get("r", 1.0), big.get("l", 1.0)])
+                    j = min(range(3), key=lambda k: ssz[k])
+                    ax = [M[i][j] for i in range(3)]
+                    h = ssz[j] * (1.0 if big["kind"] == "ellipsoid" else 0.5) + 10 ** rng.uniform(-3, 1) * ssz[j]
+                    ref = [cb[i] + rng.choice([-1.0, 1.0]) * h * ax[i] + 0.01 * max(ssz) * rng.gauss(0, 1) * M[i][(j + 1) % 3] for i in range(3)]
+                else:
+                    ref = [q[i] + 0.1 * min(sizes) * out[i] for i in range(3)]
+            elif place == "far":
+                ref = [cb[i] + rng.uniform(2, 6) * max(sizes) * out[i] for i in range(3)]
+            else:
+                ref = list(q)
+            other = gen_prim(rng, ka if which == "B" else kb, "random", ref, size=min(10.0, max(0.05, min(sizes + [1.0]))))
+            A, B = (other, big) if which == "B" else (big, other)
         elif stream == "coplanar":
             mode = rng.choice(["lattice", "random"])
             o = [rng.choice([0.0, 1.0, -2.0]) for _ in range(3)] if mode == "lattice" else [rng.uniform(-5, 5) for _ in range(3)]
